@@ -22,6 +22,7 @@ func init() {
 			"N4 decoded strings (member names) are written into rebuilt JSON only through an encoder, on the error edge of json.Marshal of the same string, or under guards excluding '\"', '\\' and all control characters, " +
 			"N5 a rebuilding FilterJson returns the original bytes only if no component changed: after a component filter whose result is not the input slice (sameSlice false, or a helper's changed signal) no path reaches a return of the data parameter, whatever the flag held before (all-elements engine). " +
 			"N6 validators and filters decode each value as the kind they test for (no json.Number, no interface{} destination); N7 StructType.IsAssignableFrom refuses on differing map dimensions only after the member types refused. " +
+			"N8 every iteration over a struct's members in an IsAssignableFrom implementation applies the relation, records a failure or found the TypeIds equal; N9 no return after a FilterJson call in package core hands back the call's input. " +
 			"NOT decided: idempotence, validity of the rebuilt JSON, int/float normalisation - all value-level.",
 		Assumptions: commonAssumptions,
 	}
@@ -35,6 +36,7 @@ func init() {
 			"T5 wherever a typed map is turned into its value type (ArrayDim = MapDim - 1, found by shape, package syntax) a test that the type has no array dimension left dominates the store, in the function or at every call of it (the array dimension is the outer one: the element of map<T>[] is map<T>, not T). " +
 			"T6 no function reachable from Pipeline.topoSort reads BindStms.Table (the sort runs before the binding tables are built; premise re-established on every run). " +
 			"T7 the in-place topological sort re-examines the slot it filled by shifting; T8 MergeMapCallSources consults KnownLength() between obtaining a source set and handing it back as the survivor. " +
+			"T9 no arm of SplitExp.FindTypedRefs hands the element type unchanged to the value's FindTypedRefs (one known finding: the DisabledExp arm); T10 (= N8) every struct member is checked. " +
 			"NOT decided: soundness of the whole relation, projection, array dimensions, error locations: this decides a few mechanisms, not the property's behaviour.",
 		Assumptions: commonAssumptions,
 	}
@@ -111,6 +113,8 @@ func runC17(c *an.Ctx) {
 	ruleN5(c)
 	ruleN6(c)
 	ruleN7(c)
+	ruleMembersAll(c, "N8")
+	ruleN9(c)
 }
 
 func ruleN1(c *an.Ctx) {
@@ -458,6 +462,7 @@ func runC07(c *an.Ctx) {
 	ruleTopoIndex(c, "T7")
 	ruleT8(c)
 	ruleT9(c)
+	ruleMembersAll(c, "T10")
 }
 
 func ruleT2(c *an.Ctx) {
